@@ -111,7 +111,7 @@ def rule_order(ctx):
     ctx.ob("BM-ORDER", "no stage is inside a loop", not body.loops(), fn=key, detail="loops: %d" % len(body.loops()))
     # the hook's `?` Continue edge dominates everything after
     s2atoms = [c for c in (models.canon_atom(a) for _, a in __import__("purlsa.sem", fromlist=["atoms_at"]).atoms_at(body, s2))] if s2 is not None else []
-    ctx.ob("BM-ORDER", "the name test runs only after finish returned Ok", any(c[0] == "callres" and c[1] == "PurlShape::finish" and c[-1] == "Ok?" for c in s2atoms), fn=key, site=body.site(s2) if s2 is not None else "", detail="; ".join(show_canon(c) for c in s2atoms))
+    ctx.ob("BM-ORDER", "the name test runs only after finish returned Ok", any(c[0] == "callres" and c[1] == "PurlShape::finish" and c[-1] in ("Ok?", "Ok") for c in s2atoms), fn=key, site=body.site(s2) if s2 is not None else "", detail="; ".join(show_canon(c) for c in s2atoms))
     # finish receives &mut self.package_type and &mut self.parts
     a = st["S1"][0]["args"]
     ctx.ob("BM-ORDER", "finish(&mut self.package_type, &mut self.parts)", len(a) == 2 and models.field_path(a[0]) == "package_type" and models.field_path(a[1]) == "parts", fn=key, site=st["S1"][0]["site"], detail=", ".join(nshow(x) for x in a))
